@@ -182,6 +182,30 @@ def corr(rep: C.Report, tier: str):
     rep.obligation("correspondence Model.SolveWall.solveWall = real EOM.solveWall on scripted pressures (outcome, type, velocity)", "correspondence",
                    not bad, f"{len(lines)} scripts; {bad[:2]}")
     _loop_corr(rep, tier, r)
+    _scan_corr(rep, tier, r)
+
+
+def _scan_corr(rep, tier, r):
+    """the REAL findWallVelocityDetonation scanning loop on scripted pressures / step proposals vs Model.DetonScan.scan"""
+    def q(f):
+        return str(f.numerator) if f.denominator == 1 else f"{f.numerator}/{f.denominator}"
+    lines, expect = [], []
+    for _ in range(300 if tier == "quick" else 4000):
+        style, (vmin, vmax, nMin, nMax, only, a, fs) = EC.detonation_scan_params(r)
+        lines.append(f"scan {q(vmin)} {q(vmax)} {nMin} {nMax} {only} {len(a) - 1} " + " ".join(q(x) for x in a) + " | " + " ".join(q(x) for x in fs))
+        try:
+            e = EC.scripted_detonation_scan(vmin, vmax, nMin, nMax, only, a, fs)
+        except Exception as ex:  # noqa: BLE001
+            e = "raised " + type(ex).__name__ + ": " + str(ex)[:100]
+        expect.append(e)
+        rep.case(key=("detonation-scan", style, e.split(" | ")[0], len(e.split(" | ")[1].split()) if " | " in e else -1, nMin, nMax, only))
+        rep.count(f"detonation scan -> {e.split(' | ')[0]}")
+    outs = C.lean_run("DetonScanQ", lines)
+    bad = [{"line": ln[:200], "model": o_[:300], "real": e[:300]} for ln, e, o_ in zip(lines, expect, outs) if e.strip() != o_.strip()]
+    rep.obligation("correspondence Model.DetonScan.scan = real EOM.findWallVelocityDetonation scanning loop on scripted pressures/step proposals "
+                   "(probed velocities, brackets handed to solveWall, label)", "correspondence", not bad and len(outs) == len(lines),
+                   f"{len(lines)} scans; {bad[:1]}")
+    rep.extra["detonation_scan_disagreements"] = bad[:3]
 
 
 def _loop_corr(rep, tier, r):
